@@ -4,6 +4,7 @@ Theorems on the dialect-dependent clause rules (over the flags regenerated from 
 -/
 import PrqlModel.Model.Clause
 import PrqlModel.Props.C03
+import PrqlModel.Lemmas.Anchor
 namespace Props.C07
 open Model.Clause Model.Take Gen Rel
 
@@ -38,5 +39,92 @@ theorem takes_emitted_correctly (d : Dialect) (rs : List Range) (ob dist : Bool)
     (h : Props.C03.StartsOk rs) :
     select (emitFor d (rangeOfRanges rs) ob dist) l = Props.C03.takes rs l := by
   rw [emitFor, clauses_select_range, Props.C03.takes_rangeOfRanges rs l h]
+
+/-! ## T1 scope of column references across a pipeline split
+
+`Model.Anchor` mirrors `split_off_back` / `anchor_split` of sql/pq/anchor.rs (tied to the code by replaying every
+recorded call of `extract_atomic`, see tools/anchortrace.py). The theorems below say that the requirement
+bookkeeping of the back-to-front scan closes the scope of the SELECT built from the atomic part: nothing it reads is
+left inside the sub-query that the preceding part becomes, unless the preceding part selects it. -/
+
+section Scope
+open Model.Anchor Lemmas.Anchor
+
+/-- **split_scope_closed.** For every well-formed pipeline (each transform mentions only columns defined before it,
+definitions are unique, the output is defined) and whatever the split point turns out to be: the set `R` of required
+columns (i) contains the output columns, the Select heading the atomic part and every column the SELECT reads on behalf
+of a kept transform (filter / join conditions, aggregate partition, sort keys not dropped in front of an aggregate,
+DISTINCT ON columns, take bounds), and (ii) every column of `R` is a column of a relation instance of the atomic part,
+a compute kept in the atomic part whose own reads - window partition and order included - are in `R` again, or one of
+the `missing` columns that the preceding part is made to select. -/
+theorem split_scope_closed (decls : List Comp) (p : List Tr) (out : List CId) (hwf : wfPipe p out = true) :
+    (∀ c ∈ out, c ∈ finalRequired decls p out) ∧
+    (∀ c ∈ (splitOffBack decls p out).select, c ∈ finalRequired decls p out) ∧
+    (∀ pre t post, (splitOffBack decls p out).kept = pre ++ t :: post →
+        ∀ c ∈ t.roots (hasAgg (t :: post)), c ∈ finalRequired decls p out) ∧
+    SelfSupporting (splitOffBack decls p out).missing (splitOffBack decls p out).kept (finalRequired decls p out) :=
+  let h := split_scope decls p out hwf
+  ⟨h.1, h.2.1, h.2.2.1, h.2.2.2.1⟩
+
+/-- **missing_provided_by_preceding.** Every column the atomic part needs from outside is defined in the part that
+stays in front, which ends with a Select of exactly these columns: the sub-query provides what the outer SELECT reads. -/
+theorem missing_provided_by_preceding (decls : List Comp) (p : List Tr) (out : List CId) (hwf : wfPipe p out = true) :
+    ∀ c ∈ (splitOffBack decls p out).missing,
+      c ∈ defsOf (splitOffBack decls p out).rest ∧ c ∈ finalRequired decls p out :=
+  fun c hc => ⟨(split_scope decls p out hwf).2.2.2.2.1 c hc, (split_scope decls p out hwf).2.2.2.2.2 c hc⟩
+
+/-- `anchor_split` puts a new relation instance in front and rewrites the atomic part through the redirect map -/
+theorem anchorSplit_shape (next : CId) (cols : List CId) (atomic : List Tr) :
+    (anchorSplit next cols atomic).2 =
+      .from (anchorSplit next cols atomic).1 ::
+        atomic.map (Tr.map (redirect (cols.zip (anchorSplit next cols atomic).1))) := rfl
+
+/-- **anchored_block_closed.** After `anchor_split` the atomic pipeline is closed on its own: every column in the
+(redirected) requirement set is a column of one of ITS relation instances - the new instance standing for the
+preceding sub-query included - or one of ITS computes whose reads are in the set again. No reference is left to a
+column that only exists inside the sub-query. Holds for any `next`, i.e. however the fresh ids are numbered. -/
+theorem anchored_block_closed (decls : List Comp) (p : List Tr) (out : List CId) (next : CId)
+    (hwf : wfPipe p out = true) :
+    SelfSupporting []
+      (anchorSplit next (splitOffBack decls p out).missing (splitOffBack decls p out).atomic).2
+      ((finalRequired decls p out).map
+        (redirect ((splitOffBack decls p out).missing.zip
+          (anchorSplit next (splitOffBack decls p out).missing (splitOffBack decls p out).atomic).1))) := by
+  rw [anchorSplit_shape]
+  apply selfSupporting_anchor
+  · simp [anchorSplit]
+  · exact SelfSupporting.cons _ (split_scope decls p out hwf).2.2.2.1
+
+/-- the redirect renames the roots of every transform along with it, so the redirected requirement set still
+contains what the redirected transforms read -/
+theorem redirected_roots (f : CId → CId) (t : Tr) (agg : Bool) (R : List CId)
+    (h : ∀ c ∈ t.roots agg, c ∈ R) : ∀ c ∈ (t.map f).roots agg, c ∈ R.map f := by
+  intro c hc
+  rw [roots_map] at hc
+  obtain ⟨d, hd, rfl⟩ := List.mem_map.1 hc
+  exact List.mem_map.2 ⟨d, h d hd, rfl⟩
+
+/-- the executable summary used as a monitor on the real pipelines agrees with the theorem -/
+theorem split_closed_monitor (decls : List Comp) (p : List Tr) (out : List CId) (hwf : wfPipe p out = true) :
+    splitClosedB decls p out = true := splitClosedB_of_wf decls p out hwf
+
+/-- non-vacuity: `from t | derive x = a + 1 | filter x > 1 | sort b | take 3 | derive r = row_number | filter r > 1`
+(column ids 0,1,2 = a,b,g; 4 = x; 5 = r windowed over the sort column): well-formed, the scan cuts in front of the windowed
+compute, the preceding part has to provide `g, x, r`-inputs and the split is closed -/
+def exPipe : List Tr :=
+  [.from [0, 1, 2],
+   .compute { id := 4, expr := .op (.cons (.col 0) (.cons .leaf .nil)), win := none, isAgg := false },
+   .filter (.op (.cons (.col 4) (.cons .leaf .nil))),
+   .take (.op (.cons .leaf .nil)) [] [1],
+   .compute { id := 5, expr := .op (.cons .leaf .nil), win := some [1], isAgg := false },
+   .filter (.op (.cons (.col 5) (.cons .leaf .nil))),
+   .select [2, 4, 5]]
+
+example : wfPipe exPipe [2, 4, 5] = true ∧
+    (splitOffBack [] exPipe [2, 4, 5]).rest.length = 5 ∧
+    (splitOffBack [] exPipe [2, 4, 5]).missing = [2, 4, 5] ∧
+    (splitOffBack [] exPipe [2, 4, 5]).kept = [.filter (.op (.cons (.col 5) (.cons .leaf .nil)))] := by decide
+
+end Scope
 
 end Props.C07
